@@ -8,7 +8,7 @@ from .ir import strip, AnalysisBroken
 IGNORE = re.compile(r"^(T|F):(memIs|utilAssert|objIsOperable2?$)|^cmp")
 
 
-def signature(x):
+def signature(x, facts=()):
     k = x[0]
     if k in ("T", "F", "ok", "bad"):
         s = x[1]
@@ -16,6 +16,16 @@ def signature(x):
         ints = re.findall(r"[(,](\d+)(?=[,)])", s)
         tail = re.search(r"\)(==[-\w]+)$", s)
         return "%s:%s%s%s" % (k, callee, ("#" + ",".join(ints)) if ints else "", tail.group(1) if tail else "")
+    if k == "ltc" and len(x) > 2:
+        # a range test accepted against a named bound: keep the bound's last identifier (order, mod, q ..), so that
+        # `d < q` cannot be replaced by `d < p`
+        bound = str(x[2])
+        for y in facts:
+            if y[0] == "from" and y[1] == bound:      # a scratch copy loaded from a named source (wwFrom(Q, params->q, no))
+                bound = str(y[2])
+                break
+        m = re.search(r"(\w+)\W*$", bound)
+        return "ltc@%s" % (m.group(1) if m else "?")
     if k in ("nz", "ltc", "field", "oncurve"):
         return k
     return None
@@ -80,7 +90,7 @@ def success_requirements(prog, fname, success=None):
             continue
         ms = {}
         for x in set(facts) | extra:
-            s = signature(x)
+            s = signature(x, facts)
             if s and not IGNORE.search(s):
                 ms[s] = ms.get(s, 0) + 1
         sets.append(ms)
